@@ -137,10 +137,8 @@ _cache = {}
 
 
 def model_for(src):
-    k = id(src)
-    if k not in _cache or _cache[k][0] is not src:
-        _cache[k] = (src, Model(src))
-    return _cache[k][1]
+    from .source import memo_on
+    return memo_on(src, 'pymodel', lambda: Model(src))
 
 
 # ---- "derives from field" analysis shared by printers and walkers ---------------------------------
